@@ -391,6 +391,10 @@ class CallMixin:
             out = ts[0][0]
             for t, _ in ts[1:]: out = z3.If(t > out, t, out) if n == 'max' else z3.If(t < out, t, out)
             return VInt(out)
+        if n == 'sum':
+            v = a[0]
+            if isinstance(v, VList) and v.kind == 'int': return VInt(self.lemmas.SumA(v.arr, v.len))
+            raise Undecided('sum of %r' % (v,))
         if n == 'abs':
             t, r = self.num(a[0], 'abs', p, line)
             return VReal(z3.If(t >= 0, t, -t)) if r else VInt(z3.If(t >= 0, t, -t))
@@ -479,7 +483,7 @@ class CallMixin:
     def str_of_ref(self, v, p, line): raise Undecided('str(pair)')
 
 
-BUILTINS = {'len', 'str', 'int', 'float', 'max', 'min', 'abs', 'pow', 'isinstance', 'hasattr', 'list', 'range', 'print'}
+BUILTINS = {'sum', 'len', 'str', 'int', 'float', 'max', 'min', 'abs', 'pow', 'isinstance', 'hasattr', 'list', 'range', 'print'}
 SPECFUNS = {'prev', 'forall', 'exists', 'implies', 'ite', 'old', 'kind', 'value', 'Sum', 'Count', 'iff', 'forall2', 'tok',
             'select', 'has', 'attr', 'store_len', 'nu', 'Tot', 'alloc', 'real', 'SumR', 'opt_is_none', 'opt_val',
             'has_text', 'ENUM_len', 'rec', 'joined', 'after', 'lam', 'is_list', 'is_int', 'py_int', 'py_head', 'py_tail', 'py_len', 'elems', 'pelems', 'dupfree', 'appended', 'lemma', 'ModelWF', 'unchanged', 'distinct_refs', 'Row', 'LL', 'PL'}
